@@ -13,7 +13,8 @@ BOOLS = [True, False]
 STRS = ["x", "abc", "1", "", "/da", "a/"]
 LISTS = [[1, 2], [1.0, 2], [], ["a"], [True], [1]]
 # lists holding mappings that hold lists / mappings, and nested lists (valid JSON values; once unhashable in the index)
-DEEP_LISTS = [[{"b": [1]}], [{"x": [1, 2]}, 3], [[1, [2]]], [{"b": {"c": [1]}}], [{"b": [1]}, {"b": [1.0]}]]
+DEEP_LISTS = [[{"b": [1]}], [{"x": [1, 2]}, 3], [[1, [2]]], [{"b": {"c": [1]}}], [{"b": [1]}, {"b": [1.0]}],
+              [{"x": 1, "y": 2}], [{"y": "a", "x": [1]}, 0], [{"p": 1, "q": {"s": 1, "r": 2}}]]
 SCALARS = INTS + IFLOATS + FLOATS + BOOLS + [None] + STRS
 TYPES = ["int", "float", "bool", "str", "list", "null"]
 PATTERNS = ["^a", "b", "x$", "1", "^$", "/d", "a/$", "^/", "/"]
@@ -146,6 +147,14 @@ def present_pairs(jobs):
     return out
 
 
+def permute_maps(v):
+    if isinstance(v, dict):
+        return {k: permute_maps(v[k]) for k in reversed(list(v))}
+    if isinstance(v, list):
+        return [permute_maps(x) for x in v]
+    return v
+
+
 def type_name(v):
     return {bool: "bool", int: "int", float: "float", str: "str", list: "list", type(None): "null"}.get(type(v), "int")
 
@@ -158,6 +167,10 @@ def rand_targeted(rng, pairs):
     if isinstance(v, dict):
         return {key + ".$exists": True} if rng.random() < 0.5 else {key: {"$type": "int"}}
     r = rng.random()
+    if isinstance(v, list) and any(isinstance(x, dict) for x in v):
+        # mappings inside a list value, spelled in another key order (equal as Python values)
+        w = permute_maps(v)
+        return rng.choice([{key: w}, {key: {"$eq": w}}, {key: {"$in": [w, 0]}}, {"$not": {key: w}}, {key + ".$ne": w}])
     if r < 0.3:
         return {key: v}
     if r < 0.4:
@@ -281,9 +294,38 @@ def build_project(root, jobs):
     """jobs: list of {'sp': plain, 'doc': plain-or-None}.  Returns (project, listing-ordered job records)."""
     import signac
 
+    import copy
+    import random
+
     project = signac.init_project(path=root)
-    for j in jobs:
-        job = project.open_job(j["sp"]).init()
+    # How a job came to exist must not matter to any query or summary: a part of every corpus is produced by a
+    # HISTORY (re-keying from a scratch state point with a caller-owned template that is mutated afterwards, creation
+    # through a second Project object, a caller mapping mutated after init) instead of open_job(sp).init().  What the
+    # workspace then holds is read back from disk by listing(); derived deterministically from the corpus itself.
+    hrng = random.Random(json.dumps(typed(jobs), sort_keys=True))
+    for n, j in enumerate(jobs):
+        how = hrng.random()
+        job = None
+        if how < 0.15 and j["sp"]:
+            template = copy.deepcopy(j["sp"])
+            job = project.open_job({"zz_scratch": n}).init()
+            job.statepoint = template
+            _scribble(template)
+        elif how < 0.27 and j["sp"]:
+            k = sorted(j["sp"])[-1]
+            part = copy.deepcopy({k: j["sp"][k]})
+            job = project.open_job({kk: v for kk, v in j["sp"].items() if kk != k}).init()
+            job.update_statepoint(part)
+            _scribble(part)
+        elif how < 0.37:
+            mine = copy.deepcopy(j["sp"])
+            job = project.open_job(mine).init()
+            _scribble(mine)
+        elif how < 0.47:
+            job = signac.get_project(root).open_job(copy.deepcopy(j["sp"])).init()
+            job = project.open_job(id=job.id)
+        if job is None:
+            job = project.open_job(j["sp"]).init()
         if j["doc"] is not None:
             if j["doc"]:
                 job.doc.update(j["doc"])
@@ -291,6 +333,18 @@ def build_project(root, jobs):
                 with open(job.fn("signac_job_document.json"), "w") as fh:
                     fh.write("{}")
     return project
+
+
+def _scribble(x):
+    """mutate a caller-owned mapping in place at every level (after signac has seen it)"""
+    if isinstance(x, dict):
+        for v in list(x.values()):
+            _scribble(v)
+        x["zz_late"] = 1
+    elif isinstance(x, list):
+        for v in x:
+            _scribble(v)
+        x.append("zz_late")
 
 
 def listing(project):
